@@ -182,7 +182,7 @@ func (c05) scripts(c *core.Ctx) []c05script {
 	}
 	nEnum := len(all)
 	// parser-level outcomes
-	for _, t := range []string{"", " ", "\t\n ", "   \r\n", ";"} {
+	for _, t := range []string{"", " ", "\t\n ", "   \r\n"} {
 		all = append(all, c05script{Kind: "blank", Text: t})
 	}
 	all = append(all, c05script{Kind: "parseerr"}, c05script{Kind: "nostmt"})
